@@ -1564,7 +1564,8 @@ bus_connection_complete (DBusConnection   *connection,
 {
   BusConnectionData *d;
   unsigned long uid;
-  
+  dbus_bool_t counted_for_uid = FALSE;
+
   d = BUS_CONNECTION_DATA (connection);
   _dbus_assert (d != NULL);
   _dbus_assert (d->name == NULL);
@@ -1606,6 +1607,8 @@ bus_connection_complete (DBusConnection   *connection,
       if (!adjust_connections_for_uid (d->connections,
                                        uid, 1))
         goto fail;
+
+      counted_for_uid = TRUE;
     }
 
   /* Create and cache a string which holds information about the 
@@ -1637,6 +1640,13 @@ bus_connection_complete (DBusConnection   *connection,
   return TRUE;
 fail:
   BUS_SET_OOM (error);
+
+  /* bus_connection_disconnected() only gives the per-user count back for
+   * connections that completed, so undo it here */
+  if (counted_for_uid &&
+      !adjust_connections_for_uid (d->connections, uid, -1))
+    _dbus_assert_not_reached ("adjusting downward should never fail");
+
   dbus_free (d->name);
   d->name = NULL;
   if (d->policy)
